@@ -398,6 +398,32 @@ def call_expand(pl, oc, fc):
     return outcome(("ok", v), canon_plist), dict(exc=None, msg="", raised_in="", raised_at="", own_guard=None, reason=None)
 
 
+def run_pre_step(st, pl):
+    """one earlier use of the SAME PauliList object `pl`:  ["restrict", qs, qform] | ["decompose", tagged labels]"""
+    if st[0] == "restrict":
+        r = call_canon(observables_restricted_to_subsystem, qubits_arg(st[1], st[2]), pl)
+        return outcome(r, canon_plist)
+    if st[0] == "decompose":
+        r = call_canon(decompose_observables, pl, [untag17(t) for t in st[1]])
+        return outcome(r, lambda d: [[tag17(l), canon_plist(v)] for l, v in d.items()])
+    raise ValueError(st)
+
+
+def rand_pre_steps(rng, n):
+    """1..3 well-formed restrictions (subset of 0..n-1 in any order) / decompositions (exactly n labels) of n-qubit observables"""
+    pre = []
+    for _ in range(int(rng.integers(1, 4))):
+        if rng.integers(0, 3):
+            m = n if rng.integers(0, 4) == 0 else int(rng.integers(0, n + 1))
+            qs = [int(q) for q in rng.permutation(n)[:m]]
+            pre.append(["restrict", qs, ["list", "tuple", "ndarray", "npints"][int(rng.integers(0, 4))]])
+        else:
+            nl = int(rng.integers(1, 4))
+            pool = [LABEL_POOL[i] for i in rng.permutation(len(LABEL_POOL))[:nl]]
+            pre.append(["decompose", [tag17(pool[int(rng.integers(0, nl))]) for _ in range(n)]])
+    return pre
+
+
 def run_expand(case):
     """(re)build both circuits from the stored layout, call the implementation, fill in oq/fq/impl"""
     tab = Table(case["anc"])
@@ -424,6 +450,9 @@ def run_expand(case):
                          o_qregs=len(oc.qregs), f_qregs=len(fc.qregs), o_cregs=len(oc.cregs), f_cregs=len(fc.cregs),
                          o_width=oc.width(), f_width=fc.width())
     pl = mk_plist(case["nobs"], case["paulis"])
+    if case.get("pre"):
+        # history stream: the caller's ONE PauliList object is first restricted / decomposed, then expanded
+        case["pre_impl"] = [run_pre_step(st, pl) for st in case["pre"]]
     o, info = call_expand(pl, oc, fc)
     case["impl"] = o
     case["refusal"] = info
@@ -531,10 +560,14 @@ class Names:
 MISMATCH_KINDS = ["one", "one", "one", "one", "less", "less", "less", "zero", "n0", "more", "more"]
 
 
-def gen_expand(rng, w, cases, it):
+def gen_expand(rng, w, cases, it, history=False):
+    """history=True (targeted stream): a well-formed expansion (transform / interleave modes, >= 1 qubit, >= 1 observable, at
+    least one phase other than +1) whose PauliList object was restricted / decomposed 1..3 times before it is expanded"""
     n = rand_n(rng)
+    if history and n == 0:
+        n = int(rng.integers(1, 9))
     names = Names()
-    r = int(rng.integers(0, 20))
+    r = int(rng.integers(0, 12 if history else 20))
     mode = "transform" if r < 6 else "interleave" if r < 12 else "mismatch" if r < 16 else "missing"
     if mode == "missing" and n == 0:
         mode = "interleave"
@@ -565,7 +598,12 @@ def gen_expand(rng, w, cases, it):
         else:
             nobs = n + int(rng.integers(1, 4))
     k = rand_k(rng, 4)
+    if history:
+        k = int(rng.integers(1, 5))
     cin = rand_canon(rng, nobs, k)
+    if history and all(p == 0 for p, _ in cin):
+        j = int(rng.integers(0, k))
+        cin[j] = (int(rng.integers(1, 4)), cin[j][1])
     case = dict(kind="expand", mode=mode, nobs=nobs, paulis=[[p, l] for p, l in cin], oc_ops=oc_ops, anc=list(anc),
                 gates=[], via=None, fc_ops=None, same_object=False)
     nclb = sum(op[1] for op in oc_ops if op[0] == "clbits") + sum(op[2] for op in oc_ops if op[0] == "creg")
@@ -615,6 +653,8 @@ def gen_expand(rng, w, cases, it):
             case["fc_ops"] = fops
         else:
             case["fc_ops"] = rand_layout_final(rng, present, fresh, set(case["anc"]), names, oc_ops)
+    if history:
+        case["pre"] = rand_pre_steps(rng, nobs)
     run_expand(case)
     if case["via"]:
         w.count("expand.transform_call", f"{case['via']}:{case['transform_outcome']}")
@@ -633,6 +673,16 @@ def gen_expand(rng, w, cases, it):
         why = Opt(Opt(Raw(f"(RMissing {info['reason'][1]})")))
     else:
         why = Opt(Opt(some=False))
+    if history:
+        # the Coq case is the plain expansion of the observables the caller built: earlier uses must not show in it
+        w.add("expand_history", "chk_expand", (nobs, oq, fq, [coq_pauli(c) for c in cin], exp, why), case,
+              nontrivial=(o[0] == "ok" and all(po[0] == "ok" for po in case["pre_impl"])))
+        cases.append(case)
+        w.count("history.outcome", o[0])
+        w.count("history.pre_steps", "+".join(st[0] for st in case["pre"]))
+        w.count("history.pre_outcomes", "all ok" if all(po[0] == "ok" for po in case["pre_impl"]) else "some not ok")
+        w.count("history.final", mode if not case["via"] else "transform:" + case["via"])
+        return
     w.add("expand", "chk_expand", (nobs, oq, fq, [coq_pauli(c) for c in cin], exp, why), case,
           nontrivial=(o[0] == "ok" and len(fq) > len(oq) and k > 0 and nobs > 0))
     cases.append(case)
@@ -675,6 +725,9 @@ def generate(rng, tier, outdir):
     n_before = len(cases)
     for it in range(n_expand):
         gen_expand(rng, w, cases, it)
+    # TARGETED stream (after the random ones, so that they are unchanged for a given seed): use-after-use of one PauliList
+    for it in range(120 if tier == "quick" else 1500):
+        gen_expand(rng, w, cases, it, history=True)
 
     # ---- monitored contracts ----
     # (a) the property-level oracle accepts every generated case on an unchanged tree (it never sees the Coq model)
@@ -690,6 +743,8 @@ def generate(rng, tier, outdir):
     for c in cases[::step] + cases[n_before::max(1, (len(cases) - n_before) // 150)]:
         c2 = rerun(json.loads(json.dumps(c)))
         keys = ("impl", "oq", "fq", "shape") if c["kind"] == "expand" else ("impl",)
+        if c.get("pre"):
+            keys += ("pre_impl",)
         w.contract("rerun_reproduces_case", all(json.loads(json.dumps(c[k])) == json.loads(json.dumps(c2[k])) for k in keys))
 
     return w.finish(
@@ -701,7 +756,9 @@ def generate(rng, tier, outdir):
         "from cut_wires / _transform_cuts_to_moves / both on random marker patterns, or random interleavings of up to 5 fresh qubits "
         "across loose bits, several registers, re-used registers, overlapping registers, classical bits; the same circuit object; "
         "count-mismatch stream (nobs=1, 1<nobs<n, nobs=0, n=0, nobs>n) and missing-qubit stream, each refusal attributed to the frame "
-        "and message that raised it. distinct = distinct Coq case literal; non-trivial = successful call with non-empty selection / "
+        "and message that raised it. history (targeted): well-formed expansions (interleave / transform) of a PauliList with a "
+        "non-trivial phase AFTER 1..3 restrictions / decompositions of the same PauliList object; the expansion is compared with "
+        "the observables as built, each earlier step with its own restriction. distinct = distinct Coq case literal; non-trivial = successful call with non-empty selection / "
         ">1 label / fresh qubits present, at least one observable"
     )
 
@@ -761,6 +818,16 @@ def judge(case):
         if got is None:
             return dict(violates=False, detail="the circuit transform itself failed; not a C17 case")
         nobs, oq, fq, ps, info = case["nobs"], case["oq"], case["fq"], case["paulis"], case.get("refusal") or {}
+        for st, po in zip(case.get("pre") or [], case.get("pre_impl") or []):
+            # earlier uses of the same PauliList object (history stream): each is a well-formed restriction / partition
+            # of the observables AS BUILT and is judged like a stand-alone one
+            if st[0] == "restrict":
+                sub = dict(kind="restrict", n=nobs, qs=st[1], paulis=ps, impl=po)
+            else:
+                sub = dict(kind="decompose", n=nobs, labels=st[1], paulis=ps, impl=po)
+            v = judge(sub)
+            if v["violates"]:
+                return dict(violates=True, detail=f"earlier step {st} on the same PauliList: " + v["detail"])
         missing = [i for i, q in enumerate(oq) if q not in fq]
         if nobs != len(oq) or missing:
             doc = MSG_COUNT if nobs != len(oq) else MSG_MISSING
@@ -775,7 +842,8 @@ def judge(case):
                 out[fq.index(q)] = lets[i]
             want.append([ph, out])
         ok = got[0] == "ok" and _norm(got[1]) == want
-        return dict(violates=not ok, detail=f"oq {oq} fq {fq}: want {want} got {got}")
+        hist = f" (after {case['pre']} on the same PauliList object)" if case.get("pre") else ""
+        return dict(violates=not ok, detail=f"oq {oq} fq {fq}{hist}: want {want} got {got}")
     raise ValueError(k)
 
 
